@@ -19,8 +19,12 @@ and `_process_announcement`, tied to the code by `harness/props/c34.py`.
 | quantifier: seeded streams from several keys: valid, forged, replayed, reordered, missing / non-integer seqnums | theorems are over arbitrary lists of batches of arbitrary wire tuples |
 
 Assumed, not proved: Ed25519 (`Unforgeable`); UTF-8 / JSON decoding and the reads made of the
-decoded object (parameter `parse`); base32 / key decoding (parameter `dec`).  Not modelled: late
-`subscribe_to` replay, the announcement cache file, announcements containing NaN.
+decoded object (parameter `parse`); base32 / key decoding (parameter `dec`).  Late `subscribe_to` is
+modelled (`gotEvents`): `accepted_implies_verified_with_subscriptions`,
+`late_subscriber_is_told_the_stored_announcements`, `seqnum_monotone_with_subscriptions`.
+Not modelled: the announcement cache file (`_load_announcements` delivers the locally cached
+announcements without re-verifying them when the introducer cannot be reached), announcements
+containing NaN.
 -/
 namespace Tahoe.C34
 open Tahoe.Introducer
@@ -148,6 +152,46 @@ example :
   refine ⟨by decide, by decide, ?_⟩
   intro sp
   by_cases h : sp = "K1" <;> simp [h]
+
+/-- Authenticity over whole client histories — `got_announcements` calls interleaved with
+    `subscribe_to` calls at any time: everything stored and every notification (including the
+    replays a late subscription triggers) is an announcement that arrived with a signature verifying
+    under the key it is attributed to. -/
+theorem accepted_implies_verified_with_subscriptions [DecidableEq PK]
+    (verify : PK → Sig → Msg → Bool) (parse : Msg → Option Ann) (subs : List Nat)
+    (evs : List (Ev PK Sig Msg)) :
+    Authentic verify parse (wiresOf evs) (gotEvents verify parse subs ⟨[], []⟩ evs).2 := by
+  have := authentic_events verify parse evs subs [] ⟨[], []⟩ ⟨by simp, by simp⟩
+  simpa using this
+
+/-- A late subscriber is told exactly what is stored for its service, in table order, and the table
+    itself is untouched: the sequence-number state cannot be disturbed by subscribing. -/
+theorem late_subscriber_is_told_the_stored_announcements [DecidableEq PK] (svc : Nat) (st : State PK) :
+    (subscribeTo svc st).store = st.store ∧
+    (subscribeTo svc st).delivered = st.delivered ++
+      (st.store.filter (fun e => e.1.1 == svc)).map (fun e => (e.1.2, e.2)) :=
+  ⟨rfl, rfl⟩
+
+/-- The sequence-number rule over histories with subscriptions: once an index holds integer
+    sequence number `m`, after any further batches and `subscribe_to` calls it holds the same
+    announcement or one with a strictly greater integer sequence number. -/
+theorem seqnum_monotone_with_subscriptions [DecidableEq PK] (verify : PK → Sig → Msg → Bool)
+    (parse : Msg → Option Ann) (subs : List Nat) (st : State PK) (evs : List (Ev PK Sig Msg))
+    (idx : Index PK) (a : Ann) (m : Int) (hst : lookup idx st.store = some a) (ha : a.seq = .int m) :
+    ∃ b n, lookup idx (gotEvents verify parse subs st evs).2.store = some b ∧ b.seq = .int n ∧
+      (b = a ∨ m < n) :=
+  seq_mono_events verify parse evs subs st idx a m ha ⟨a, m, hst, ha, Or.inl rfl⟩
+
+/-- service 0 subscribed from the start, key 1 announces seqnum 5 and then 7; a second subscription
+    to service 0 re-notifies the stored 7 (not the superseded 5); subscribing to service 3, for
+    which nothing could be stored, notifies nothing; the stale 5 afterwards is still refused -/
+example :
+    let parse : Nat → Option Ann := fun m => some ⟨m, .name 0, false, .int m⟩
+    let w : Nat → Wire Nat SymSig Nat := fun m => .tuple m (.bytes (.signed 1 m)) (.key 1)
+    let r := gotEvents symVerify parse [0] ⟨[], []⟩
+      [.batch [w 5, w 7], .subscribe 0, .subscribe 3, .batch [w 5]]
+    r.1 = [0, 0, 3] ∧ r.2.delivered.map (·.2.content) = [5, 7, 7] ∧
+    lookup (0, 1) r.2.store = some ⟨7, .name 0, false, .int 7⟩ := by decide
 
 /-- A bad announcement does not stop the others in the same batch (repaired loop): a batch with a
     bad announcement anywhere in it leaves the client in the same state as the batch without it —
